@@ -133,6 +133,17 @@ class Resolver:
             e = simplify(e)
         return e
 
+    def local_init(self, l, at=(0, 0)):
+        """value of the whole-local definitions of l, ignoring later field-by-field writes."""
+        fn = self.fn
+        ds = [d for d in fn.defs().get(l, []) if d[2] != "partial"]
+        if fn.is_param(l) and not ds:
+            return ("param", l)
+        es = [self._def_expr(d, 1) for d in sorted(ds, key=str)]
+        if not es:
+            return ("local", l)
+        return es[0] if len(es) == 1 else ("phi", es)
+
     def local(self, l, at, depth=0):
         fn = self.fn
         if depth > MAX_DEPTH:
